@@ -37,7 +37,7 @@ from ..absval import Poly, Rat, ratfun
 from ..cfg import CFG
 from ..core import AnalysisError, dotted, enclosing_stmt, short, txt, walk
 from ..lib_C02 import (Arr, Ev, Feat, Mini, MiniError, ModelFault, NS, Opaque,
-                       bind_like,
+                       ModuleNS, bind_like,
                        numpy_model)
 
 ASSUMPTIONS = [
@@ -569,6 +569,11 @@ def _uint64(x):
 def _np_array_num(a, dtype=None, copy=True):
     if isinstance(a, NumArr):
         return a.copy()
+    if isinstance(a, (list, tuple)) and all(
+            isinstance(x, (int, float)) and not isinstance(x, bool)
+            for x in a):
+        return NumArr([float(x) if dtype in ("float64", float) else x
+                       for x in a])
     raise MiniError("np.array of a non-numeric model value in a CLI task")
 
 
@@ -654,17 +659,18 @@ def run_split(repo, n, size, empty=(), skip_i=True, skip_f=True):
     wmod = Warnings()
     ds = DSS(n, set(empty), fs)
     datasets = {"dir/in.rtdc": ds}
-    common = NS("common",
-                get_command_log=bind_like(
-                    repo.func(COMMON, "get_command_log"),
-                    lambda paths, **k: ["cmd"]),
-                assemble_warnings=bind_like(
-                    repo.func(COMMON, "assemble_warnings"),
-                    lambda w: ["w"]))
-    mini = cli_globals(repo, SPLIT, fs, wmod, datasets, {"common": common})
+    # `common`: the stand-ins below, everything else (helpers, constants)
+    # by its definition in the parsed cli/common.py
     cmini = cli_globals(repo, COMMON, fs, wmod, datasets)
-    helper = repo.func(COMMON, "skip_empty_image_events")
-    common.__dict__["skip_empty_image_events"] = cmini.bind(helper)
+    common = ModuleNS(cmini, dict(
+        get_command_log=bind_like(
+            repo.func(COMMON, "get_command_log"),
+            lambda paths, **k: ["cmd"]),
+        assemble_warnings=bind_like(
+            repo.func(COMMON, "assemble_warnings"),
+            lambda w: ["w"])), "dclab.cli.common")
+    repo.func(COMMON, "skip_empty_image_events")
+    mini = cli_globals(repo, SPLIT, fs, wmod, datasets, {"common": common})
     f = repo.func(SPLIT, "split")
     out = mini.call(f, (), dict(path_in=PathM("dir/in.rtdc", fs),
                                 path_out=PathM("outdir", fs),
@@ -869,17 +875,33 @@ def run_join(repo, specs, order):
     out = PathM("out.rtdc", fs)
     temp = PathM("out.rtdc~", fs)
 
+    cmini = cli_globals(repo, COMMON, fs, wmod, datasets)
+    real_setup = repo.func(COMMON, "setup_task_paths")
+
     def setup_task_paths(paths_in, paths_out, allowed_input_suffixes=None):
-        return ([PathM(str(p), fs) for p in paths_in], out, temp)
-    common = NS("common",
-                setup_task_paths=bind_like(
-                    repo.func(COMMON, "setup_task_paths"), setup_task_paths),
-                get_command_log=bind_like(
-                    repo.func(COMMON, "get_command_log"),
-                    lambda paths, **k: [str(p) for p in paths]),
-                assemble_warnings=bind_like(
-                    repo.func(COMMON, "assemble_warnings"),
-                    lambda w: [str(x.message) for x in w]))
+        vals = ([PathM(str(p), fs) for p in paths_in], out, temp)
+        # the result has the form the real function returns: a plain
+        # tuple or a record (named tuple) of (inputs, outputs, temps)
+        rets = [n for n in walk(real_setup) if isinstance(n, ast.Return)]
+        if len(rets) == 1 and isinstance(rets[0].value, ast.Call) \
+                and isinstance(rets[0].value.func, ast.Name):
+            rec = cmini.g.get(rets[0].value.func.id)
+            fields = getattr(rec, "_fields", None)
+            if fields is None or len(fields) != 3 or not (
+                    "in" in fields[0] and "out" in fields[1]
+                    and "temp" in fields[2]):
+                raise MiniError("setup_task_paths: form of the returned "
+                                "record not recognised")
+            return rec(*vals)
+        return vals
+    common = ModuleNS(cmini, dict(
+        setup_task_paths=bind_like(real_setup, setup_task_paths),
+        get_command_log=bind_like(
+            repo.func(COMMON, "get_command_log"),
+            lambda paths, **k: [str(p) for p in paths]),
+        assemble_warnings=bind_like(
+            repo.func(COMMON, "assemble_warnings"),
+            lambda w: [str(x.message) for x in w])), "dclab.cli.common")
     mini = cli_globals(repo, JOIN, fs, wmod, datasets, {"common": common})
     f = repo.func(JOIN, "join")
     mini.call(f, (), dict(paths_in=[f"{n}.rtdc" for n in order],
@@ -1728,3 +1750,51 @@ MUTANTS = list(MUTANTS) + [
      ("                t_offsets[ii] += float(etime[8:])",
       "                t_offsets[ii] += float(\"0.\" + etime[10:])"), "R9."),
 ]
+
+
+_PRUNE = ("                    for feat in list(features):\n"
+          "                        if feat not in dsc.features:\n"
+          "                            features.remove(feat)\n"
+          "                            warnings.warn(\n"
+          "                                f\"Excluding feature '{feat}', "
+          "because \"\n"
+          "                                + f\"it is not present in "
+          "'{pp}'!\",\n"
+          "                                "
+          "FeatureSetNotIdenticalJoinWarning)\n")
+
+TWINS = list(TWINS) + [
+    ("join: missing features collected first, then removed", JOIN,
+     (_PRUNE,
+      "                    missing = [ft for ft in features\n"
+      "                               if ft not in dsc.features]\n"
+      "                    for feat in missing:\n"
+      "                        features.remove(feat)\n"
+      "                        warnings.warn(\n"
+      "                            f\"Excluding feature '{feat}', because \"\n"
+      "                            + f\"it is not present in '{pp}'!\",\n"
+      "                            FeatureSetNotIdenticalJoinWarning)\n")),
+    ("join: start instants appended to a list, np.array at the end", JOIN,
+     [("    t_offsets = np.zeros(len(sorted_paths), dtype=np.float64)\n"
+       "    for ii, pp in enumerate(sorted_paths):\n",
+       "    t_starts = []\n"
+       "    for ii, pp in enumerate(sorted_paths):\n"),
+      ("            t_offsets[ii] = time.mktime(st)\n",
+       "            t_start = time.mktime(st)\n"),
+      ("                t_offsets[ii] += float(etime[8:])\n"
+       "    t_offsets -= t_offsets[0]\n",
+       "                t_start += float(etime[8:])\n"
+       "            t_starts.append(t_start)\n"
+       "    t_offsets = np.array(t_starts, dtype=np.float64)\n"
+       "    t_offsets -= t_offsets[0]\n")]),
+]
+
+MUTANTS = list(MUTANTS) + [
+    ("join: features pruned through an alias of the iterated list", JOIN,
+     (_PRUNE,
+      "                    same = features\n"
+      "                    for feat in same:\n"
+      "                        if feat not in dsc.features:\n"
+      "                            features.remove(feat)\n"), "R9.1"),
+]
+
